@@ -16,7 +16,13 @@ class _Timed:
 
     nested_sub = None  # called when a subscriber subscribes another one from inside a notification
 
+    nested_connect = None  # called when a subscriber calls connect() from inside a notification
+
     def apply(self, op, reentrant_from=None):
+        if op[0] == "connect":
+            if self.nested_connect is not None:
+                self.nested_connect()
+            return None
         if op[0] == "sub" and reentrant_from is not None and self.nested_sub is not None:
             self.nested_sub()
         return super().apply(op, reentrant_from)
@@ -135,7 +141,11 @@ class Prop:
             # a subscriber that, from inside its k-th notification, subscribes one more observer to the same shared observable
             subs = [h[2] for h in hist if h[1] == "sub"]
             o = rng.choice(subs)
-            sc["scripts"] = {str(o): {"k": rng.randrange(0, 3), "do": ["sub", 100 + o, True]}}
+            if form in MANUAL and rng.random() < 0.4:
+                # ... or that calls connect() again ("make sure it is connected") from inside its k-th notification
+                sc["scripts"] = {str(o): {"k": rng.randrange(0, 3), "do": ["connect"]}}
+            else:
+                sc["scripts"] = {str(o): {"k": rng.randrange(0, 3), "do": ["sub", 100 + o, True]}}
             if kind == "cold" and subject_kind(a.get("base", form)) == "replay":
                 # a cold event at relative time 0 would be queued in the scheduler between the replay deliveries of the
                 # connecting subscriber and those of later subscribers of the same instant: keep it off the connection instant
@@ -187,7 +197,9 @@ class Prop:
             if name == "sub":
                 r = recs[rest[0]] = vt.Recorder(w, "o%d" % rest[0], follow=False)
                 script = (sc.get("scripts") or {}).get(str(rest[0]))
-                if script:
+                if script and script["do"][0] == "connect":
+                    r.script = (script["k"], (lambda: conn.append(holder["obs"].connect(w.s))))
+                elif script:
                     def nested(new=script["do"][1]):
                         r2 = recs[new] = vt.Recorder(w, "o%d" % new, follow=False)
                         r2.subscribe(holder["obs"])
@@ -243,6 +255,7 @@ class Prop:
             count += 1
 
         m.nested_sub = nested_sub
+        m.nested_connect = lambda: connect(m.now) if t_end is None else None  # (after the source terminated nothing is stated about connect())
 
         def connect(t):
             nonlocal connected, pending
@@ -276,7 +289,13 @@ class Prop:
                     t_end = t
 
         for t, _, op in timeline:
-            feed(t - 0.5)
+            for _ in range(4):
+                feed(t - 0.5)
+                if t_end is not None or not hasattr(m, "flush") or t == m.now:
+                    break
+                m.flush()  # the queued deliveries of the instant we are leaving; one of them may call connect() and bring earlier events
+                if not (pending and pending[0][0] <= t - 0.5):
+                    break
             if t_end is not None:
                 break
             at(t)
@@ -296,10 +315,13 @@ class Prop:
                 connect(t)
             elif op[0] == "disconnect":
                 disconnect(t)
-        if t_end is None:
-            feed(sc["horizon"])
-        if hasattr(m, "flush"):
-            m.flush()
+        for _ in range(4):  # (a queued delivery may call connect() again, which brings new source events)
+            if t_end is None:
+                feed(sc["horizon"])
+            if hasattr(m, "flush"):
+                m.flush()
+            if not pending or t_end is not None:
+                break
         return m.tlog, intervals, t_end
 
     def model_mapper(self, sc):
@@ -330,11 +352,24 @@ class Prop:
             intervals.append([t, closed])
         return logs, intervals
 
+    def valid(self, sc):
+        """(for the shrinker) well-formed history: known call names with their arguments, in time order"""
+        last = None
+        for op in sc["ops"]:
+            if not (isinstance(op, list) and len(op) >= 2 and isinstance(op[0], (int, float)) and op[1] in ("sub", "unsub", "connect", "disconnect")):
+                return False
+            if op[1] in ("sub", "unsub") and len(op) != 3:
+                return False
+            if last is not None and op[0] < last:
+                return False
+            last = op[0]
+        return all(v.get("do") and v["do"][0] in ("sub", "connect") for v in (sc.get("scripts") or {}).values())
+
     # ------------------------------------------------------------ check
     def execute(self, sc):
         out = Outcome()
         named = set(h[2] for h in sc["ops"] if h[1] in ("sub", "unsub"))
-        if any(v["do"][1] in named for v in (sc.get("scripts") or {}).values()):
+        if any(v["do"][0] == "sub" and v["do"][1] in named for v in (sc.get("scripts") or {}).values()):
             out.digest = ("invalid",)  # (only the shrinker produces this) the nested subscriber must be a new observer
             return out
         w, recs = self.run_real(sc)
